@@ -14,7 +14,7 @@ pub fn run(ctx: &Ctx) -> Outcome {
     let walk_shards = 64usize;
     let nc = cfgs.len();
     let nd = c12::N_DIRECTED;
-    let report = run_sharded(ctx, nc + nd + walk_shards, |shard, rep: &mut Report| {
+    let mut report = run_sharded(ctx, nc + nd + walk_shards, |shard, rep: &mut Report| {
         if shard < nc {
             let cfg = &cfgs[shard];
             let ex = vsx::explore(cfg, rep, &mut |nodes, i, m, out, rep| {
@@ -73,6 +73,12 @@ pub fn run(ctx: &Ctx) -> Outcome {
             }
         }
     });
+    {
+        // the same calls from a thread-local destructor while a thread exits (see exitprobe.rs)
+        let mut at_exit = Report::new();
+        crate::exitprobe::check("virtual_sign", "lockstep_refsign", &mut at_exit);
+        report.merge(at_exit);
+    }
     let own_cells = report.set_len("matrix_own_state_x_kind");
     let foreign_cells = report.set_len("matrix_foreign_state_x_op");
     let floors = vec![
